@@ -72,7 +72,27 @@ THOROUGH_CASES = [
     (("dii", "A", "badsize"), "A-unreferenced", "delete_if_invalid_object removing an unreferenced object"),
 ]
 
+# the same calls on a depth-1 / width-1 store, where unrelated cids and pids share shard directories
+STATES.update({
+    "q=S2": (("store", Q, "S2", None), QMETA),
+    "p=S1,q=S2": (("store", "p", "S1", None), ("store", Q, "S2", None), QMETA),
+    "S1-unreferenced,q=S2": (("store_nopid", "S1"), ("store", Q, "S2", None), QMETA),
+})
+SHALLOW_CASES = [
+    (("store", "p", "S1", None), "q=S2", "store new content beside a bystander whose cid shares the shard directory [depth 1 width 1]", "1x1"),
+    (("tag", "p", "S1"), "S1-unreferenced,q=S2", "tag, cid list absent, bystander cid in the same shard directory [depth 1 width 1]", "1x1"),
+    (("delete", "p"), "p=S1,q=S2", "delete sole reference, bystander cid in the same shard directory [depth 1 width 1]", "1x1"),
+    (("store_meta", "p", None, "v1"), "p=S1,q=S2", "store metadata [depth 1 width 1]", "1x1"),
+]
+
 _TREES = {}
+
+
+def configure(cfg=None):
+    """Select the store configuration the following calls of this module use (per job; default: depth 3, width 2)."""
+    global P, LAYOUT
+    P = tscen.P11 if cfg == "1x1" else tscen.P
+    LAYOUT = Layout(P["depth"], P["width"], P["algo"])
 
 
 def ctx():
@@ -80,7 +100,7 @@ def ctx():
 
 
 def init_tree(state):
-    key = (os.getpid(), state)
+    key = (os.getpid(), state, P["depth"], P["width"])
     if key not in _TREES:
         c = ctx()
         root = os.path.join(common.scratch(), "finit")
